@@ -104,7 +104,17 @@ var ctors = []ctor{
 	}},
 }
 
+// recursive struct whose self-reference is declared before the converted value
+var ctorRecPtrFirst = ctor{"recp", func(g *shapeGen, in shape) shape {
+	k := g.id()
+	return wrap(in, "recp", fmt.Sprintf("PFXQS%d", k), fmt.Sprintf("PFXQT%d", k),
+		fmt.Sprintf("type PFXQS%d struct {\n\tNext *PFXQS%d\n\tV %s\n}\ntype PFXQT%d struct {\n\tNext *PFXQT%d\n\tV %s\n}", k, k, in.Src, k, k, in.Tgt))
+}}
+
 func ctorByName(n string) ctor {
+	if n == "recp" {
+		return ctorRecPtrFirst
+	}
 	for _, c := range ctors {
 		if c.Name == n {
 			return c
@@ -195,6 +205,30 @@ func FamilyShape(thorough bool, seed int64) []*Conv {
 		{"rec_in_struct", "type PFXRL2 []PFXRL2\ntype PFXRM2 []PFXRM2\ntype PFXRS struct {\n\tKids PFXRL2\n\tN int\n}\ntype PFXRT struct {\n\tKids PFXRM2\n\tN int\n}", "PFXRS", "PFXRT"},
 	} {
 		out = append(out, shapeConv("shape", shape{Src: rc.src, Tgt: rc.tgt, Name: rc.name, Decls: []string{rc.decl}}, nextFormat(), nil, nil))
+	}
+	// basic kinds never change silently: a target of another kind (named or not, at any position) is rejected
+	for _, km := range []struct{ name, src, tgt, decl string }{
+		{"int64_named_int32", "int64", "PFXCnt", "type PFXCnt int32"},
+		{"uint64_named_uint16", "uint64", "PFXPort", "type PFXPort uint16"},
+		{"float64_named_float32", "float64", "PFXRatio", "type PFXRatio float32"},
+		{"int_named_int64", "int", "PFXWide", "type PFXWide int64"},
+		{"named_int32_named_int64", "PFXN32", "PFXN64", "type PFXN32 int32\ntype PFXN64 int64"},
+		{"named_int64_int32", "PFXM64", "int32", "type PFXM64 int64"},
+		{"int_uint", "int", "uint", ""},
+		{"int_named_string", "int", "PFXLabel", "type PFXLabel string"},
+		{"uint8_named_int8", "uint8", "PFXSigned", "type PFXSigned int8"},
+	} {
+		var d []string
+		if km.decl != "" {
+			d = []string{km.decl}
+		}
+		leaf := shape{Src: km.src, Tgt: km.tgt, Name: "kind_" + km.name, Decls: d}
+		for _, s := range []shape{leaf, ctorByName("struct").F(g, leaf), ctorByName("slice").F(g, leaf), ctorByName("map").F(g, leaf), ctorByName("ptr").F(g, leaf)} {
+			cv := shapeConv("shape", s, nextFormat(), nil, nil)
+			cv.ID = "shape/fail_" + s.Name + "/" + cv.Format
+			cv.ExpectFail, cv.FailNote = true, "basic value converted to a basic type of another kind ("+km.src+" -> "+km.tgt+")"
+			out = append(out, cv)
+		}
 	}
 	out = append(out, shapeConv("shape", shape{Src: "map[PFXPK]int", Tgt: "map[PFXPK]int", Name: "mapstructptrkey", Decls: []string{"type PFXPK struct {\n\tP *int\n\tN string\n}"}}, nextFormat(), nil, nil))
 	if thorough {
